@@ -769,9 +769,22 @@ def int_mod(a, b):
 
 
 def _quotient_candidates(ea, eb):
-    """syntactically evident quotients of ea by eb: if ea is a product containing eb's factors"""
+    """syntactically evident quotients of ea by eb: if ea is a product containing eb's factors (or a sum of such)"""
     out = []
     ea_s, eb_s = z3.simplify(ea), z3.simplify(eb)
+    if z3.is_add(ea_s):
+        parts = []
+        for c in ea_s.children():
+            qs = _quotient_candidates(c, eb_s)
+            if not qs:
+                parts = None
+                break
+            parts.append(qs[0])
+        if parts:
+            q = parts[0]
+            for x in parts[1:]:
+                q = q + x
+            return [z3.simplify(q)]
 
     def factors(t):
         if z3.is_mul(t):
